@@ -44,6 +44,13 @@ pub struct C19Case {
     /// the nested histories aligned (and empty when saving is disabled)
     #[serde(default)]
     pub swap_consist: bool,
+    /// kinds 0-2: this many `step()` calls are made by hand before `walk()` takes over
+    #[serde(default)]
+    pub pre_steps: usize,
+    /// kinds 0-2: a `walk()` that returned Ok is called once more (nothing is left to do: it
+    /// only makes its entry save)
+    #[serde(default)]
+    pub walk_again: bool,
 }
 
 fn build_u19(u: &U19, si: Option<usize>) -> anyhow::Result<Locomotive> {
@@ -208,7 +215,9 @@ impl C19 {
         }
         let pdct = g.int(0, 1) as u8;
         let swap_consist = kind >= 2 && g.bool(0.15);
-        C19Case { kind, units, pdct, trace, train, interval, via_setter, initial, swap_consist }
+        let pre_steps = if kind <= 2 && g.bool(0.25) { g.usize(1, 12) } else { 0 };
+        let walk_again = kind <= 2 && g.bool(0.1);
+        C19Case { kind, units, pdct, trace, train, interval, via_setter, initial, swap_consist, pre_steps, walk_again }
     }
 
     fn check(case: &C19Case, cx: &mut Ctx) {
@@ -225,6 +234,38 @@ impl C19 {
                 case.trace.iter().map(|_| Some(true)).collect(),
             )
         };
+        // `pre_steps` calls of step() by hand (stopping at the first Err or at the end of the
+        // trace), then walk(); a walk that returned Ok may be called once more.  `saves` receives
+        // the step index at every moment the object is asked to save: after each executed step,
+        // and at every entry of walk()
+        let saves: std::cell::RefCell<Vec<u64>> = Default::default();
+        macro_rules! hand_then_walk {
+            ($sim:expr, $i:expr, $len:expr) => {{
+                let mut r: anyhow::Result<()> = Ok(());
+                let mut by_hand = 0;
+                while by_hand < case.pre_steps && $i < $len {
+                    let i0 = $i as u64;
+                    r = $sim.step();
+                    if r.is_err() {
+                        break;
+                    }
+                    saves.borrow_mut().push(i0);
+                    by_hand += 1;
+                }
+                if r.is_ok() {
+                    let i0 = $i as u64;
+                    saves.borrow_mut().push(i0);
+                    r = $sim.walk();
+                    let i1 = $i as u64;
+                    saves.borrow_mut().extend(i0..i1);
+                    if r.is_ok() && case.walk_again {
+                        saves.borrow_mut().push(i1);
+                        r = $sim.walk();
+                    }
+                }
+                r
+            }};
+        }
         // run and serialise
         let out = catch(|| -> anyhow::Result<(Value, u64, bool)> {
             match case.kind {
@@ -234,7 +275,7 @@ impl C19 {
                     if case.via_setter {
                         sim.set_save_interval(case.interval);
                     }
-                    let r = sim.walk();
+                    let r = hand_then_walk!(sim, sim.i, sim.power_trace.len());
                     Ok((serde_json::to_value(&sim)?, sim.i as u64, r.is_ok()))
                 }
                 1 => {
@@ -245,7 +286,7 @@ impl C19 {
                     if case.via_setter {
                         sim.set_save_interval(case.interval);
                     }
-                    let r = sim.walk();
+                    let r = hand_then_walk!(sim, sim.i, sim.power_trace.len());
                     Ok((serde_json::to_value(&sim)?, sim.i as u64, r.is_ok()))
                 }
                 2 => {
@@ -261,7 +302,7 @@ impl C19 {
                     if case.swap_consist {
                         sim.loco_con = tc.train.build_consist(Some(1))?;
                     }
-                    let r = sim.walk();
+                    let r = hand_then_walk!(sim, sim.state.i, sim.speed_trace.len());
                     Ok((serde_json::to_value(&sim)?, sim.state.i as u64, r.is_ok()))
                 }
                 _ => {
@@ -351,17 +392,32 @@ impl C19 {
                 cx.fail(format!("C19|interval|not-propagated:{}", kind_of(p)), format!("{p} = {iv:?} but the interval in force is {:?} (construction {:?}, setter {})", case.interval, construct_iv, case.via_setter));
             }
         }
-        let want = expected_len(case.interval, executed);
-        // entry k refers to step k: the step column itself is known
+        cx.label_if(case.kind <= 2 && case.pre_steps > 0, "steps_by_hand_before_walk");
+        cx.label_if(case.kind <= 2 && case.walk_again && ok, "walk_called_again");
+        // entry k refers to step k: the step column itself is known.  Kinds 0-2: the moments at
+        // which the object was asked to save (after every executed step; on entry of walk(), which
+        // is the "initial state" of the statement when nothing has been executed yet), of which
+        // those with an index that is a multiple of the interval are kept
         let want_col: Vec<u64> = match case.interval {
             None => vec![],
             Some(n) => {
                 let n = n as u64;
-                let mut c: Vec<u64> = if n == 1 { vec![1] } else { vec![] };
-                c.extend((1..=executed).filter(|k| k % n == 0));
-                c
+                if case.kind <= 2 {
+                    saves.borrow().iter().copied().filter(|k| k % n == 0).collect()
+                } else {
+                    let mut c: Vec<u64> = if n == 1 { vec![1] } else { vec![] };
+                    c.extend((1..=executed).filter(|k| k % n == 0));
+                    c
+                }
             }
         };
+        let want = if case.kind <= 2 { want_col.len() as u64 } else { expected_len(case.interval, executed) };
+        if case.kind <= 2 && case.pre_steps == 0 && !(case.walk_again && ok) {
+            // plain walk: the closed form of the statement
+            if want != expected_len(case.interval, executed) {
+                cx.fail("C19|harness|save-model-differs-from-closed-form", format!("{want} vs {}", expected_len(case.interval, executed)));
+            }
+        }
         if let Some((p, col)) = t.histories.first() {
             if col.len() == want_col.len() && *col != want_col {
                 let i = col.iter().zip(want_col.iter()).position(|(a, b)| a != b).unwrap_or(0);
